@@ -15,6 +15,7 @@ pub mod c14;
 pub mod c15;
 pub mod c16;
 pub mod c17;
+pub mod c18;
 pub mod c19;
 
 use crate::report::{PropSpec, Report, RunCfg};
@@ -38,6 +39,7 @@ pub fn lookup(id: &str) -> Option<(&'static PropSpec, fn(&RunCfg) -> Report)> {
         "C15" => (&c15::SPEC, c15::run as fn(&RunCfg) -> Report),
         "C16" => (&c16::SPEC, c16::run as fn(&RunCfg) -> Report),
         "C17" => (&c17::SPEC, c17::run as fn(&RunCfg) -> Report),
+        "C18" => (&c18::SPEC, c18::run as fn(&RunCfg) -> Report),
         "C19" => (&c19::SPEC, c19::run as fn(&RunCfg) -> Report),
         _ => return None,
     })
